@@ -50,6 +50,16 @@ pub fn gen_id(rng: &mut Rng, len: usize) -> u64 {
     }
 }
 
+/// Marker bit exactly where the byte length puts it, value bits neither all zero nor all one.
+pub fn well_formed_id(id: u64) -> bool {
+    if id == 0 || id >> 57 != 0 {
+        return false;
+    }
+    let l = enc::id_bytes(id).len() as u32;
+    let v = id & ((1u64 << (7 * l)) - 1);
+    id >> (7 * l) == 1 && v != 0 && v != (1u64 << (7 * l)) - 1
+}
+
 pub fn gen_spec(rng: &mut Rng, o: &SpecOpts) -> SpecTable {
     if rng.below(100) < o.static_pct {
         return crate::spec::static_table();
@@ -62,10 +72,32 @@ pub fn gen_spec(rng: &mut Rng, o: &SpecOpts) -> SpecTable {
         2 => &[1, 2, 3, 4, 5, 6, 7, 8],
         _ => &[1, 1, 2, 2, 3, 4, 8],
     };
+    // one table in four also draws ids that are *related* to ids already in use: the same value bits under
+    // another length marker, the same trailing bytes, or a neighbour (id comparisons on part of an id,
+    // truncating casts and prefix confusions need such pairs)
+    let related = rng.chance(1, 4);
     let mut fresh_id = |rng: &mut Rng, used: &mut Vec<u64>| -> u64 {
         loop {
             let l = *rng.pick(lens_pool);
-            let id = gen_id(rng, l);
+            let mut id = gen_id(rng, l);
+            if related && used.len() > 2 && rng.chance(1, 2) {
+                let base = used[2 + rng.below(used.len() as u64 - 2) as usize];
+                let bl = enc::id_bytes(base).len() as u32;
+                let val = base & ((1u64 << (7 * bl)) - 1);
+                let l = l as u32;
+                let cand = match rng.below(4) {
+                    // same value bits under another length marker
+                    0 => (val & ((1u64 << (7 * l)) - 1)) | (1u64 << (7 * l)),
+                    // same low byte, fresh high part
+                    1 => (id & !0xff) | (base & 0xff),
+                    // neighbours
+                    2 => base ^ 1,
+                    _ => base.wrapping_add(1),
+                };
+                if well_formed_id(cand) {
+                    id = cand;
+                }
+            }
             // for recovery tests: keep first bytes 0x08..=0x0F unused (5-byte ids)
             if o.reserve_junk && enc::id_bytes(id)[0] >> 3 == 1 {
                 continue;
@@ -77,7 +109,9 @@ pub fn gen_spec(rng: &mut Rng, o: &SpecOpts) -> SpecTable {
         }
     };
     let leaf_tys = [Ty::UInt, Ty::Int, Ty::Utf8, Ty::Bin, Ty::Float];
-    let n_roots = rng.range(1, 3);
+    // one table in twelve is a deep, narrow one (declared paths of up to twice the usual depth)
+    let max_depth = if rng.chance(1, 12) { 2 * o.max_depth } else { o.max_depth };
+    let n_roots = if rng.chance(1, 10) { rng.range(4, 8) } else { rng.range(1, 3) };
     let budget = rng.range(3, o.max_elems.max(3));
     // (index into elems, depth) of masters that may still receive children
     let mut open: Vec<(usize, usize)> = Vec::new();
@@ -99,7 +133,7 @@ pub fn gen_spec(rng: &mut Rng, o: &SpecOpts) -> SpecTable {
         path.push(PathPart::Id(parent.id));
         let parent_has_global = parent.has_global();
         let id = fresh_id(rng, &mut used);
-        let make_master = depth + 1 < o.max_depth && rng.chance(2, 5);
+        let make_master = depth + 1 < max_depth && rng.chance(2, 5);
         let mut ty = if make_master { Ty::Master } else { *rng.pick(&leaf_tys) };
         // optionally a trailing placeholder
         // a placeholder after the parent: also when the parent's own path already has one (several
